@@ -31,7 +31,9 @@ def _render(I, kind, v, flags=0, width=None, precision=None):
     elif isinstance(v, BV):
         if v.val is None:
             raise Unsupported('formatting a symbolic integer')
-        if getattr(v, 'is_char', False):
+        if v.w == 1:
+            s = 'true' if v.val else 'false'
+        elif getattr(v, 'is_char', False):
             s = chr(v.val)
         else:
             n = v.val
@@ -691,3 +693,32 @@ def m_f32_round(I, a, t, c):
 def m_f32_floor(I, a, t, c):
     import math
     return float(math.floor(a[0]) if c.name.endswith('floor') else math.ceil(a[0]))
+
+
+@model('<std::string::String as std::convert::From<&str>>::from', '<std::string::String as std::convert::From<&std::string::String>>::from',
+       'std::borrow::ToOwned::to_owned', 'core::str::<impl str>::to_owned', '<str as std::borrow::ToOwned>::to_owned')
+def m_string_from(I, a, t, c):
+    return StrV(list(_str(I, a[0]).chars))
+
+
+@model('std::fmt::Formatter::write_fmt', 'std::fmt::Write::write_fmt', 'core::fmt::Write::write_fmt')
+def m_formatter_write_fmt(I, a, t, c):
+    return m_write_fmt(I, a, t, c)
+
+
+@model('std::fmt::Formatter::write_str', 'std::fmt::Write::write_str')
+def m_formatter_write_str(I, a, t, c):
+    ref = _sink_of(I, a[0])
+    s = I.load(ref)
+    I.store(ref, Agg('sink', 0, [s.fields[0], s.fields[1] + [M._strval(I, a[1])]]))
+    return M._ok(UNIT)
+
+
+@model('std::string::String::pop')
+def m_string_pop(I, a, t, c):
+    s = _str(I, a[0])
+    if not s.chars:
+        return M.NONE
+    I.store(a[0], StrV(list(s.chars[:-1])))
+    ch = s.chars[-1]
+    return M.some(BV(32, ord(ch)) if isinstance(ch, str) else ch)
